@@ -1043,13 +1043,36 @@ def run_k6_keys(ctx):
             if name is None:
                 continue
             g = ctx.fn(LIB, name)
-            has = any(is_call_to(c, "dedup", "dedup_by", "dedup_by_key") for c in all_calls(g["body"]))
-            # a set-typed collection (BTreeSet/HashSet collect) is an equally good normalisation
-            setlike = any("BTreeSet" in (c.get("ty") or "") or "HashSet" in (c.get("ty") or "") for c in all_calls(g["body"]))
-            ctx.check(has or setlike, rule, name, f"normalises:{key}", "keys are de-duplicated",
-                      f"{key} no longer removes duplicate keys (no dedup, no set collection): its source yields the same key several times "
-                      "(n-grams of one value / several values), so idx_diff's merge walk mis-classifies the surplus copies",
+            # the de-duplication must cover the WHOLE result: a dedup (or set collection) inside a per-value closure only
+            # normalises each value's keys, and values of one attribute share n-grams
+            top_calls = [c for c in all_calls(g["body"], into_closures=False)]
+            dd = [c for c in top_calls if is_call_to(c, "dedup", "dedup_by", "dedup_by_key")]
+            setlike = any("BTreeSet" in (c.get("ty") or "") or "HashSet" in (c.get("ty") or "") for c in top_calls)
+            has = bool(dd) or setlike
+            ctx.check(has, rule, name, f"normalises:{key}", "keys are de-duplicated over the whole result",
+                      f"{key} does not remove duplicate keys over its whole result (no dedup / set collection outside per-value closures): its "
+                      "source yields the same key several times (n-grams of one value, several values sharing n-grams), so idx_diff's merge "
+                      "walk mis-classifies the surplus copies and entries vanish from index lists they still belong to",
                       file=g["file"], line=g["line"])
+            if dd and not setlike:
+                # the returned value is (an element-wise image of) the vector that was de-duplicated
+                def root_local(e):
+                    e = unwrap(e)
+                    while isinstance(e, dict):
+                        if e.get("e") == "mcall":
+                            e = unwrap(e["recv"])
+                        elif e.get("e") == "path" and "local" in e["res"]:
+                            return e["res"]["local"]
+                        else:
+                            return None
+                    return None
+                b = unwrap(g["body"])
+                tail = b["b"].get("tail") if b.get("e") == "blockexpr" else b
+                rl = root_local(tail) if tail is not None else None
+                dl = {root_local(c["recv"]) for c in dd}
+                ctx.check(rl is not None and rl in dl, rule, name, f"returns-deduped:{key}", "the result is the de-duplicated vector",
+                          f"{key} returns something other than (an element-wise image of) the vector it de-duplicated: the duplicates removed "
+                          "are not the duplicates returned", file=g["file"], line=(tail or g).get("line"))
 
 
 def run(ctx):
